@@ -19,7 +19,8 @@ const P: &str = "C04";
 #[derive(Clone, Debug, Serialize, Deserialize)]
 pub struct Case {
     pub key: KeyRaw,
-    /// 0 admission grid, 1 mislabelled bound, 2 shifted part dropped / swapped / replaced
+    /// 0 admission grid, 1 mislabelled bound, 2 shifted part dropped / swapped / replaced,
+    /// 3 key requested with an enforced bound beyond the supported degree
     pub group: u8,
     /// admission: 0 = bound from the enforced set, 1 = inside 1..=supported but not enforced, 2 = beyond supported
     pub dkind: u8,
@@ -36,7 +37,7 @@ pub struct Case {
 pub fn case() -> impl Strategy<Value = Case> {
     (
         key_raw(),
-        prop_oneof![2 => Just(0u8), 2 => Just(1u8), 2 => Just(2u8)],
+        prop_oneof![2 => Just(0u8), 2 => Just(1u8), 2 => Just(2u8), 1 => Just(3u8)],
         0u8..3,
         any::<u16>(),
         any::<u16>(),
@@ -304,6 +305,48 @@ where
             }
             Ok(())
         }
+        // ------------------------------------------------------------- key with a bound beyond `supported`
+        3 => {
+            if info.any_bound {
+                ctx.label("scheme_trims_no_bound_list");
+                return Ok(());
+            }
+            let max = info.max_degree;
+            let d = if max > sup && c.dkind != 2 { sup + 1 + pick(c.d_choice, max - sup) } else { max + 1 + pick(c.d_choice, 3) };
+            let mut req = info.requested_bounds.clone().unwrap_or_default();
+            let at = pick(c.d2_choice, req.len() + 1);
+            req.insert(at, d);
+            ctx.label(if d <= max { "requested_bound_in_(supported,max]" } else { "requested_bound_beyond_max" });
+            ctx.nontrivial_if(d <= max);
+            ctx.derived = Some(json!({"scheme": S::NAME, "key": info.desc, "requested_bounds": req, "offending_bound": d}));
+            ctx.asserts += 1;
+            match guard(|| S::PC::trim(&keys.pp, sup, info.hiding, Some(&req))) {
+                Out::Ok((ck, _vk)) => {
+                    // The key was served (MarlinKZG10 does serve bounds in (supported, max]: the shifted
+                    // powers reach up to max_degree; SonicKZG10 refuses them). Whatever trim does, the
+                    // committer must refuse a polynomial whose degree exceeds the supported degree.
+                    ctx.label("trim_served_bound_beyond_supported");
+                    let deg = match c.deg_rel {
+                        0 => pick(c.deg_choice, sup + 1),
+                        1 => (sup + 1).min(d),
+                        _ => d.min(max),
+                    };
+                    ctx.label(if deg > sup { "degree_above_supported" } else { "degree_within_supported" });
+                    let h = if c.hiding == 0 { None } else { Some(1) };
+                    let lp = LabeledPolynomial::new("p".into(), rand_poly::<S>(deg, c.seed), Some(d), h);
+                    let mut r = rng(c.seed);
+                    let out = guard(|| S::PC::commit(&ck, [&lp], Some(&mut r)));
+                    if let (Out::Ok(_), true) = (&out, deg > sup) {
+                        return ctx.fail(
+                            sig(P, S::NAME, "commit", "degree_beyond_supported_accepted"),
+                            format!("key trimmed with bound {d} > supported {sup} (max {max}): commit succeeded for degree {deg} under that bound"),
+                        );
+                    }
+                }
+                _ => ctx.label("trim_refused"),
+            }
+            Ok(())
+        }
         // ------------------------------------------------------------------------------ mislabelled bound
         1 => {
             if enforced.len() < 2 {
@@ -511,7 +554,7 @@ pub fn spec() -> PropertySpec {
     add!(Ipa);
     PropertySpec {
         id: "C04",
-        rule: "Three groups per scheme (Marlin, Sonic, IPA) over generated keys (max degree, supported degree, enforced set B, unsorted/duplicated): (i) admission grid - declared bound d drawn from B / from 1..=supported outside B / beyond supported, degree in {d-1,d,d+1}: commit (and open with a relabelled polynomial) must return Err or abort exactly when deg > d or d not in B or deg > supported, and an admissible boundary case must commit, open and verify; (ii) mislabel - commit under d' in B, present as d in B, d != d', deg <= min(d,d'), with the honest proof and with the library prover run on the relabelled polynomial and the old state: not accepted; (iii) the degree-bound part dropped (with and without the label), taken from another polynomial, or replaced by the plain commitment: not accepted. Points for (ii),(iii) are admissible by construction (Marlin: p(z) != 0; IPA: also z != 0 and z^(d-d') != 1; Sonic: any); polynomials in (iii) are non-constant. Non-trivial: d != max(B) or hiding present, and for (i) |deg - d| <= 1.",
+        rule: "(iv) key requests whose enforced-bound list contains a bound in (supported, max] or beyond max (Marlin, Sonic): if trim serves such a key (MarlinKZG10 does for bounds <= max, by design), commit of a polynomial whose degree exceeds the supported degree must still fail. Three groups per scheme (Marlin, Sonic, IPA) over generated keys (max degree, supported degree, enforced set B, unsorted/duplicated): (i) admission grid - declared bound d drawn from B / from 1..=supported outside B / beyond supported, degree in {d-1,d,d+1}: commit (and open with a relabelled polynomial) must return Err or abort exactly when deg > d or d not in B or deg > supported, and an admissible boundary case must commit, open and verify; (ii) mislabel - commit under d' in B, present as d in B, d != d', deg <= min(d,d'), with the honest proof and with the library prover run on the relabelled polynomial and the old state: not accepted; (iii) the degree-bound part dropped (with and without the label), taken from another polynomial, or replaced by the plain commitment: not accepted. Points for (ii),(iii) are admissible by construction (Marlin: p(z) != 0; IPA: also z != 0 and z^(d-d') != 1; Sonic: any); polynomials in (iii) are non-constant. Non-trivial: d != max(B) or hiding present, and for (i) |deg - d| <= 1.",
         assumptions: vec![
             "enforced sets stay inside the documented trim domain 1..=supported_degree",
             "degree-bound enforcement of Marlin and IPA is a polynomial identity at the query point: roots of p and points with z^(d-d')=1 are excluded as the modules document",
